@@ -108,6 +108,10 @@ type VerifAutoScaling struct {
 	AttachFailFor int // how many consecutive AttachInstances calls fail from AttachFailAt on (0 = one)
 	// LaunchBase: launch time reported for instances (unix seconds)
 	LaunchBase int64
+	// DescribeFailOdd: every other describe call fails, starting with the next one (a refresh fails,
+	// the describe inside the rebuild that follows works, the refresh of the rebuilt provider fails, ...)
+	DescribeFailOdd bool
+	describeCalls   int
 	// KeepTerminating: a terminated instance stays listed by describe in state Terminating:Wait
 	KeepTerminating bool
 	// DescribeDown: every DescribeAutoScalingGroups call fails (throttled control plane); the
@@ -128,7 +132,8 @@ func (s *VerifAutoScaling) Group(name string) *VerifASG {
 }
 
 func (s *VerifAutoScaling) DescribeAutoScalingGroups(in *autoscaling.DescribeAutoScalingGroupsInput) (*autoscaling.DescribeAutoScalingGroupsOutput, error) {
-	if s.DescribeDown || s.J.Fail("DescribeAutoScalingGroups") {
+	s.describeCalls++
+	if s.DescribeDown || (s.DescribeFailOdd && s.describeCalls%2 == 1) || s.J.Fail("DescribeAutoScalingGroups") {
 		return nil, s.J.failure("DescribeAutoScalingGroups")
 	}
 	out := &autoscaling.DescribeAutoScalingGroupsOutput{}
@@ -281,6 +286,12 @@ func (s *VerifAutoScaling) CreateOrUpdateTags(in *autoscaling.CreateOrUpdateTags
 	c.OK = true
 	s.J.Calls = append(s.J.Calls, c)
 	return &autoscaling.CreateOrUpdateTagsOutput{}, nil
+}
+
+// FailEveryOtherDescribe arms DescribeFailOdd so that the next describe call is a failing one.
+func (s *VerifAutoScaling) FailEveryOtherDescribe() {
+	s.DescribeFailOdd = true
+	s.describeCalls = 0
 }
 
 // TermFailAt makes the k-th TerminateInstanceInAutoScalingGroup call from now on fail.
